@@ -393,6 +393,14 @@ def run(pid, cfg, tier, seed, scr, only, a, t0):
             continue
         res, wall, tail, cmd = run_kani_batch(scr, batch, tier, idx, only)
         cmds.append(cmd)
+        if res is None and "could not compile" not in tail and "error[E" not in tail and "no harnesses matched" not in tail.lower() \
+                and "No proof harnesses" not in tail and "Failed to match" not in tail:
+            # the driver itself died (seen once: a worker was killed under memory pressure and kani-driver panicked, losing the whole
+            # batch). One more attempt with half the parallelism before calling the run inconclusive.
+            log("[A] batch %d: kani driver crashed, retrying once with fewer jobs" % idx)
+            notes.append("batch %d: kani driver crashed once; batch re-run with half the jobs" % idx)
+            res, wall, tail, cmd = run_kani_batch(scr, dict(batch, jobs=max(2, int(batch.get("jobs", 8)) // 2)), tier, idx, only)
+            cmds.append(cmd)
         if res is None:
             if "no harnesses matched" in tail.lower() or "No proof harnesses" in tail:
                 notes.append("batch %d: no harness matched" % idx)
